@@ -72,6 +72,10 @@ pub struct Scenario {
     /// by another: from the second poll on it is polled with a different waker
     #[serde(default)]
     pub moved: bool,
+    /// (wave 18) environment: SIGINT's disposition is not the default when the process starts (ignored — `sh -c './server &'`
+    /// — or taken by a library): `ctrlc::set_handler` overrides that; nothing changes for the tree
+    #[serde(default)]
+    pub sigint_not_default_at_start: bool,
 }
 
 pub fn generate(_cfg: &RunCfg, _out: &mut Outcome) -> Scenario {
@@ -111,7 +115,7 @@ pub fn generate(_cfg: &RunCfg, _out: &mut Outcome) -> Scenario {
     } else {
         Vec::new()
     };
-    Scenario { clients, sigint_ms, second_sigint_after_ms: if t::chance(1, 5) { Some(t::pick(&[0u64, 1, 100, 10_000])) } else { None }, server_first: !due_at_start && t::chance(1, 2), due_at_start, accept_errors, keepalive_s, moved: t::chance(1, 6) }
+    Scenario { clients, sigint_ms, second_sigint_after_ms: if t::chance(1, 5) { Some(t::pick(&[0u64, 1, 100, 10_000])) } else { None }, server_first: !due_at_start && t::chance(1, 2), due_at_start, accept_errors, keepalive_s, moved: t::chance(1, 6), sigint_not_default_at_start: t::chance(1, 8) }
 }
 
 pub fn run(cfg: &RunCfg, direct: Option<&serde_json::Value>) -> Outcome {
@@ -187,6 +191,10 @@ fn execute(sc: &Scenario, out: &mut Outcome) {
     out.scenario = serde_json::to_value(sc).unwrap_or(serde_json::Value::Null);
     out.scenario_hash = rt::fnv64(serde_json::to_string(sc).unwrap_or_default().as_bytes());
     signal::reset();
+    signal::SIGINT_NOT_DEFAULT_AT_START.store(sc.sigint_not_default_at_start, std::sync::atomic::Ordering::SeqCst);
+    if sc.sigint_not_default_at_start {
+        out.probe("c18.sigint_disposition_not_default_at_start");
+    }
     if let Some(k) = sc.keepalive_s {
         rt::set_keepalive_timeout(k);
         out.probe("c18.keepalive_timeout_raised");
@@ -516,6 +524,12 @@ fn execute(sc: &Scenario, out: &mut Outcome) {
     }
     if matches!(end, simcore::EndReason::StepCap | simcore::EndReason::TimeCap) {
         out.verdict = Verdict::Inconclusive(format!("{end:?}"));
+        return;
+    }
+    // the server accepted connections, an interrupt is due, and no handler was ever installed: the interrupt is lost for good
+    if delivered == 0 && !signal::handler_installed() && simcore::with(|w| (0..w.n_conns()).any(|c| w.conn_accepted(c))) {
+        out.nontrivial = true;
+        out.violate("howl-returns-eventually", "no-interrupt-handler-installed", format!("howl is accepting connections but never installed its Ctrl-C handler (SIGINT disposition not default at start: {}): the interrupt can never be honoured", sc.sigint_not_default_at_start));
         return;
     }
     if delivered == 0 || finished == 0 {
